@@ -316,10 +316,20 @@ class Threadless(ABC, Generic[T]):
                 self.selector.unregister(fileno)
             self.registered_events_by_work_ids[work_id].clear()
             del self.registered_events_by_work_ids[work_id]
-        self.works[work_id].shutdown()
-        del self.works[work_id]
-        if self.work_queue_fileno() is not None:
-            os.close(work_id)
+        # An exception raised while shutting down a work
+        # must never escape into the event loop shared with
+        # other works.
+        try:
+            self.works[work_id].shutdown()
+        except Exception as e:
+            logger.exception(
+                'Exception during shutdown of work#{0}'.format(work_id),
+                exc_info=e,
+            )
+        finally:
+            del self.works[work_id]
+            if self.work_queue_fileno() is not None:
+                os.close(work_id)
 
     def _create_tasks(
             self,
